@@ -9,6 +9,11 @@ import (
 
 // Implements Tree.
 func (t *tree) RemoveExisting(ctx context.Context, key []byte) ([]byte, error) {
+	// A key that is too long to be inserted cannot exist.
+	if len(key) > node.MaxKeyLength {
+		return nil, nil
+	}
+
 	t.cache.Lock()
 	defer t.cache.Unlock()
 
